@@ -44,6 +44,7 @@ def corpus(chk, tier):
     out.append(("refused2", "fn dsp(){ undefined_name(1) }\n", None))
     out += [(k, v, None) for k, v in GOOD_MACRO.items()]
     out += [(k, v, None) for k, v in FAULTS.items()]
+    out += [(k, v, None) for k, v in COUNTERS.items()]
     return out
 
 
@@ -95,6 +96,30 @@ GOOD_MACRO = {   # well-formed uses of the same primitives
     for k in (1, 2)}
 
 
+def _desugar_job(seed, n=16):
+    """a staged program whose quoted-stage let destructures n sibling nested tuples (every sub-pattern draws a fresh
+    temporary name from the translator's counter), twice, with a trivial macro call"""
+    pats = ", ".join(f"(a{i}, b{i})" for i in range(n))
+    vals = ", ".join(f"({(i * 7 + seed) % 10}, {(i * 3 + seed * 2) % 10})" for i in range(n))
+    total = " + ".join(f"a{i} * {i + 1} + b{i} * {100 + i}" for i in range(n))
+    return (f"#stage(macro)\nfn one(){{\n  `(1.0)\n}}\n#stage(main)\nfn dsp(){{\n  let ({pats}) = ({vals})\n"
+            f"  let ({pats.replace('a', 'c').replace('b', 'd')}) = ({vals})\n  {total} + c3 * 1000 + d{n - 1} * 5000 + one!()\n}}\n")
+
+
+def _tyvar_job(seed, n=10):
+    """many let-polymorphic definitions instantiated at several types (fresh type variables)"""
+    defs = "\n".join(f"  let id{i} = |x| x\n  let pr{i} = |x, y| (y, x)" for i in range(n))
+    uses = " + ".join(f"id{i}({i + seed}) + (pr{i}({i}, {seed})).0 + (id{i}((1, {i}))).1" for i in range(n))
+    return f"fn dsp(){{\n{defs}\n  {uses}\n}}\n"
+
+
+# Jobs that draw many names / numbers from the counters the compiler keeps per process or per thread (fresh temporaries
+# of the staging translation, type variables): whatever another thread does in between, the result is the solo result
+COUNTERS = {f"counter:desugar{k}": _desugar_job(k) for k in (1, 2, 3)}
+COUNTERS.update({f"counter:tyvars{k}": _tyvar_job(k) for k in (1, 2)})
+COUNTER_ROUNDS = {"quick": 40, "thorough": 600}
+
+
 def make_req(name, src, path, rid):
     r = {"id": rid, "src": src, "n": NSAMPLES, "what": ["bytecode", "wasm"], "sched": True, "backends": ["vm", "wasm"]}
     if path:
@@ -140,6 +165,15 @@ def run(tier):
         rounds.append({"id": f"round{r}", "perturb": rng.randrange(1, 1 << 30) if r % 3 else 0, "log": r < LOGGED[tier],
                        "jobs": [make_req(n, s, p, f"round{r}:t{i + 1}:{n}") for i, (n, s, p) in enumerate(picks)],
                        "_names": [n for n, _, _ in picks], "_mode": mode})
+    # rounds in which every thread is a consumer of the compiler's counters (8 threads, the same job on the even
+    # threads, variants on the odd ones)
+    cnt = [(n, s_, p_) for n, s_, p_ in usable if n in COUNTERS]
+    for r in range(COUNTER_ROUNDS[tier] if cnt else 0):
+        picks = [cnt[0] if i % 2 == 0 else cnt[(r + i) % len(cnt)] for i in range(8)]
+        rid = f"round{ROUNDS[tier] + r}"
+        rounds.append({"id": rid, "perturb": rng.randrange(1, 1 << 30) if r % 2 else 0, "log": False,
+                       "jobs": [make_req(n, s, p, f"{rid}:t{i + 1}:{n}") for i, (n, s, p) in enumerate(picks)],
+                       "_names": [n for n, _, _ in picks], "_mode": "counters"})
     # logged rounds come first in their process (chunk boundaries), so the recorded history starts at an early interner
     nchunks = max(LOGGED[tier], 8)
     per = (len(rounds) + nchunks - 1) // nchunks
